@@ -1029,6 +1029,18 @@ func (e *Env) bitsSpec(name string, s, p, n Val) Val {
 	if okp && okn && nl.Sign() >= 0 && nl.Cmp(big.NewInt(64)) <= 0 && pl.Sign() >= 0 {
 		return e.ival(u.bitsLiteral(name, arr, off, uint(pl.Uint64()), uint(nl.Uint64())))
 	}
+	if okn && nl.Sign() > 0 && nl.Cmp(big.NewInt(64)) <= 0 && !strings.Contains(p.T, "!q") && !strings.Contains(p.T, "!j") && !strings.Contains(p.T, "!d") {
+		// literal width, symbolic position: eight alignments, each the byte arithmetic
+		// at byte index off + p div 8 (the position is named so that the term stays small)
+		pn := u.define("bitpos", "Int", p.T)
+		bi := u.define("bytepos", "Int", iadd(off, idivc(pn, big.NewInt(8))))
+		al := u.define("bitalign", "Int", imodc(pn, big.NewInt(8)))
+		t := u.bitsLiteral(name, arr, bi, 7, uint(nl.Uint64()))
+		for a := 6; a >= 0; a-- {
+			t = ite(eq(al, ilit(int64(a))), u.bitsLiteral(name, arr, bi, uint(a), uint(nl.Uint64())), t)
+		}
+		return e.ival(t)
+	}
 	return e.ival(u.bitsTerm(name, arr, iadd(imul("8", off), p.T), n.T))
 }
 
